@@ -52,7 +52,7 @@ def _desc_of(evse):
     cn = type(evse).__name__
     try:
         if hasattr(evse, "deadband_end"):
-            return {"t": "DB", "end": evse.deadband_end, "max": evse.max_rate}
+            return {"t": "DB", "end": evse.deadband_end, "max": evse.max_rate}  # (max_rate: the documented hook, overridable)
         if getattr(evse, "is_continuous", True) is False:
             return {"t": "FR", "rates": list(evse.allowable_pilot_signals)}
         return {"t": "EVSE", "min": evse.min_rate, "max": evse.max_rate}
@@ -141,8 +141,14 @@ def _rand_evse(rng, long_ok=False):
     if k == "EVSE":
         return {"t": "EVSE", "min": rng.choice([0, 0, 6, 2.5]), "max": rng.choice([16, 32, 80, float("inf"), 7.3, 4e6, 1e9])}
     if k == "DB":
+        if rng.random() < 0.12:
+            # a user subclass of DeadbandEVSE that overrides only the documented max_rate hook ("max" is the value it reports)
+            return {"t": "DB", "end": rng.choice([6, 4.5, 8]), "max": rng.choice([16, 20, 12.5]), "user": "derated"}
         return {"t": "DB", "end": rng.choice([6, 4.5, 8]), "max": rng.choice([16, 32, float("inf"), 2.5e6])}
     r = rng.random()
+    if rng.random() < 0.06:
+        # a user subclass of FiniteRatesEVSE: levels up to 32 A stay listed (and accepted), max_rate reports the cable rating (24 A)
+        return {"t": "FR", "rates": rng.choice([[0, 8, 16, 24, 32], [32, 24, 6, 12], [0, 12, 24, 36]]), "user": "cable", "form": "list"}
     if r < 0.02 and long_ok:
         # hundreds to thousands of allowable levels (a fine-grained charger), in shuffled order
         n_ = rng.choice([300, 1025, 2500])
